@@ -231,7 +231,7 @@ Inductive pres := PLoaded (m : list (str * value)) (clock : N) | PFail | PPanick
 
 (* read_data_from_cloud: partitions in listing order; stems that are not numbers panic *)
 Definition part_read_db (retry : nat) (s : stub) (dbn : str) (clock : N) : stub * pres :=
-  let names := stub_list s (prefix_name +++ "/" +++ dbn) in
+  let names := stub_list s (prefix_name +++ "/" +++ dbn +++ "/") in     (* fix: trailing slash *)
   let stems := map (fun nm => match split_char "."%char (last (split_char "/"%char nm) "") with x :: _ => x | [] => "" end) names in
   fold_left (fun acc stem =>
       let '(s0, r) := acc in
